@@ -37,7 +37,8 @@ static Conn gen_conn(int idx) {
     else if (k == 3) { std::string body = "a=" + tag + "&b=%u0041%zz+&c"; add_stream(c, "POST /f/" + tag + "/../x\\y?q=" + tag + " HTTP/1.1\r\nHost: " + tag + ".example:81\r\nAuthorization: Basic dXNlcjpwYXNz\r\nContent-Type: application/x-www-form-urlencoded\r\nContent-Length: " + std::to_string(body.size()) + "\r\n\r\n" + body, '>'); add_stream(c, "HTTP/1.1 404 Not Found\r\nTransfer-Encoding: chunked\r\n\r\n3\r\n" + std::string("abc") + "\r\n0\r\n\r\n", '<'); c.label = "urlencoded"; }
     else if (k == 4) { std::string plain; int n = rcx::range(1, 30); for (int i = 0; i < n; i++) plain += tag + std::string((size_t)rcx::range(1, 200), (char)('a' + idx)); int w = rcx::range(0, 2); std::string body = zpack(plain, w == 0 ? 31 : w == 1 ? -15 : 15);
         add_stream(c, "GET /z/" + tag + " HTTP/1.1\r\nHost: " + tag + ".example\r\n\r\n", '>'); add_stream(c, std::string("HTTP/1.1 200 OK\r\nContent-Encoding: ") + (w == 0 ? "gzip" : "deflate") + "\r\nContent-Length: " + std::to_string(body.size()) + "\r\n\r\n" + body, '<'); c.label = "coded_body"; }
-    else { add_stream(c, "GET /%c3%a9/" + tag + "/%u00e9?" + tag + "=\xc3\xa9 HTTP/1.1\r\nHost: " + tag + ".EXAMPLE.\r\nX-Long: " + std::string((size_t)rcx::range(10, 3000), 'x') + "\r\n folded\r\n\r\nGARBAGE " + tag + "\r\n", '>'); add_stream(c, "HTTP/1.1 200 OK\r\nContent-Length: 3\r\n\r\nabcHTTP/1.1 500\r\n\r\n", '<'); c.label = "utf8_bestfit_malformed"; }
+    else { static const char *WIDE[] = {"%c4%80", "%e2%82%ac", "%ef%bc%8f", "\xc5\x81", "%e2%88%95", "%ef%bc%a1", "%f0%9f%98%80", "%u0141", "%uff0f"}; std::string wide; int nw = rcx::range(1, 4); for (int i = 0; i < nw; i++) wide += std::string("/") + WIDE[rcx::range(0, 8)] + tag; // code points >= U+0100: the best-fit mapping is consulted
+        add_stream(c, "GET /%c3%a9" + wide + "/" + tag + "/%u00e9?" + tag + "=\xc3\xa9 HTTP/1.1\r\nHost: " + tag + ".EXAMPLE.\r\nX-Long: " + std::string((size_t)rcx::range(10, 3000), 'x') + "\r\n folded\r\n\r\nGARBAGE " + tag + "\r\n", '>'); add_stream(c, "HTTP/1.1 200 OK\r\nContent-Length: 3\r\n\r\nabcHTTP/1.1 500\r\n\r\n", '<'); c.label = "utf8_bestfit_malformed"; }
     c.ops.push_back(vdrv::Op{'C', "", 0});
     return c;
 }
